@@ -264,6 +264,15 @@ def check(run):
                                                       "strict parser/validator": (lg or "")[:300]}))
     run.extra["faults_fired"] = fired_total
     merge_tool_section(run, seen, full, S, quick)
+    # (4) "complete" includes the closing break wherever it falls in the encoder's staging buffer: named outputs of every size
+    # modulo the buffer, closed by rotation and by destruction, must be complete valid files holding the reference's records
+    import refexp
+    sweep = refexp.alignment_sweep(rng, range(0, 2101, 1 if not quick else 1), target="nm", compress="n", rotate=True)
+    if not quick:
+        sweep += refexp.alignment_sweep(rng, range(0, 2101), target="nm", compress="g", rotate=True)
+    for s_, r_ in zip(sweep, E.run_sessions(run, sweep)):
+        run.case(("alignment", s_[0][-200:]), True, key=s_[0]); run.count("alignment sweep (named outputs)")
+        E.record_failures(run, s_, E.judge_files(s_, r_), seen)
     run.exhaustive = True
     run.extra["exhaustive_over"] = "crash points k = 1..N and fault points k = 1..N x {refused once, refused from then on, cut short} of every scenario"
 
